@@ -125,6 +125,36 @@ pub fn run(tier: Tier) -> ! {
     }
     let mut families = vec![json!({"family": format!("Sets({k1};{k2};{k3}) x token type variants x inputs {{a,b,x,€}}^<={l}"), "pattern_sets": n, "inputs": ins.len(), "exhaustive": true})];
 
+    // repetition shapes and class pairs
+    {
+        let shapes = refsem::families::repetition_shapes();
+        let ins5 = inputs(&['a', 'b', 'x', 'y'], if tier == Tier::Quick { 4 } else { 5 });
+        let accs = par_for(shapes.len(), 4, || Acc { samples: Samples::new(1), ..Default::default() }, |acc, i| {
+            run_cfg(acc, &Cfg::single(vec![bridge::CPat::new(&shapes[i], 3), bridge::CPat::new("[abxy]", 1)]), &ins5, &tables, "repetition-shapes");
+            run_cfg(acc, &Cfg::single(vec![bridge::CPat::new(&shapes[i], 0)]), &ins5, &tables, "repetition-shapes");
+        });
+        for a in accs {
+            merge(&mut total, a);
+        }
+        families.push(json!({"family": "repetition shapes: (inner)rep for 5 inner patterns x {*,+,?,{m},{m,},{m,n} | 0<=m<=n<=3} x 7 contexts, alone and before [abxy]", "patterns": shapes.len(), "inputs": ins5.len(), "exhaustive": true}));
+        let menu = refsem::families::class_menu();
+        let mut tables2 = tables.clone();
+        let all = Cfg::single(menu.iter().enumerate().map(|(i, c)| bridge::CPat::new(c, i)).collect());
+        if let Err(e) = bridge::tabulate_atoms(&all.atom_keys(), &mut tables2) {
+            refsem::evidence::machinery(&format!("cannot tabulate atoms of the class menu: {e}"));
+        }
+        let insc = inputs(&['a', 'b', '1', ' ', '→', '.'], 3);
+        let pairs: Vec<(usize, usize)> = (0..menu.len()).flat_map(|x| (0..menu.len()).map(move |y| (x, y))).collect();
+        let accs = par_for(pairs.len(), 4, || Acc { samples: Samples::new(1), ..Default::default() }, |acc, i| {
+            let (x, y) = (menu[pairs[i].0], menu[pairs[i].1]);
+            run_cfg(acc, &Cfg::single(vec![bridge::CPat::new(&format!("({x})+"), 0), bridge::CPat::new(&format!("({y})+"), 1), bridge::CPat::new(&format!("({x})({y})"), 2)]), &insc, &tables2, "class-pairs");
+        });
+        for a in accs {
+            merge(&mut total, a);
+        }
+        families.push(json!({"family": "class pairs: every ordered pair (X,Y) of a menu of near-identical one-character classes as patterns (X)+, (Y)+, (X)(Y)", "menu": menu, "pairs": pairs.len(), "inputs": insc.len(), "exhaustive": true}));
+    }
+
     // add_patterns: token type = index
     {
         let g2 = refsem::families::g_upto(2);
